@@ -10,21 +10,23 @@ count `h` of Hadamard-type gates, so that every probability is an exact rational
 -/
 namespace CKT.Sampler
 
-structure Backend (V : Type) where
-  norm2 : V → Rat
-  /-- a unitary instruction on the given qubits; `none` = not a known unitary -/
-  apply : String → List Nat → V → Option V
-  /-- unnormalised projection of qubit `q` onto outcome `b` -/
-  proj : Nat → Bool → V → V
-  /-- the X rotation that completes a reset -/
-  flip : Nat → V → V
-
 structure SInstr where
   name : String
   qubits : List Nat
   clbits : List Nat := []
   conditioned : Bool := false
+  /-- for the rational rotation `ry_t`: `t = tan(θ/4)`, so that `cos(θ/2) = (1-t²)/(1+t²)`, `sin(θ/2) = 2t/(1+t²)` -/
+  param : Rat := 0
   deriving Repr, DecidableEq, Inhabited
+
+structure Backend (V : Type) where
+  norm2 : V → Rat
+  /-- a unitary instruction; `none` = not a known unitary -/
+  apply : SInstr → V → Option V
+  /-- unnormalised projection of qubit `q` onto outcome `b` -/
+  proj : Nat → Bool → V → V
+  /-- the X rotation that completes a reset -/
+  flip : Nat → V → V
 
 abbrev Branch (V : Type) := Nat × V
 
@@ -46,7 +48,7 @@ def step {V : Type} (B : Backend V) (tol : Rat) (bs : List (Branch V)) (i : SIns
   else if i.name = "reset" then .ok (split B tol (i.qubits.getD 0 0) 0 true bs)
   else if !i.clbits.isEmpty then .error (.value "Circuit cannot contain a non-measurement operation on classical bit(s).")
   else
-    bs.mapM fun b => match B.apply i.name i.qubits b.2 with
+    bs.mapM fun b => match B.apply i b.2 with
       | some v => .ok (b.1, v)
       | none => .error (.other ("unsupported gate " ++ i.name))
 
@@ -101,10 +103,15 @@ def im : GQ := (0, 1)
 def mone : GQ := (-1, 0)
 def mim : GQ := (0, -1)
 
-def cliffordApply (name : String) (qs : List Nat) (s : CState) : Option CState :=
-  let q := qs.getD 0 0
-  let t := qs.getD 1 0
-  match name with
+def cliffordApply (ins : SInstr) (s : CState) : Option CState :=
+  let q := ins.qubits.getD 0 0
+  let t := ins.qubits.getD 1 0
+  let p := ins.param
+  let c : Rat := (1 - p * p) / (1 + p * p)
+  let sn : Rat := 2 * p / (1 + p * p)
+  match ins.name with
+  | "ry_t" => some (apply1 s q (c, 0) (-sn, 0) (sn, 0) (c, 0))
+  | "rx_t" => some (apply1 s q (c, 0) (0, -sn) (0, -sn) (c, 0))
   | "id" => some s
   | "barrier" => some s
   | "x" => some (apply1 s q zero one one zero)
